@@ -14,7 +14,7 @@ PROPERTY_ID = "C16"
 TECHNIQUE = "Hypothesis-generated multivariate data/penalties/savings vs. sorted-saving argmax model (fresh saving instance, sparse penalty from its closed form) + positional labelling of transform"
 ASSUMPTIONS = [
     "collective anomalies: sparse penalty (2 s log n, 2 s log(k p)) at the collective scale, re-implemented from the formula; point anomalies: the configured point penalty (built-in family values are inputs, pinned by C15; user callables return generated values)",
-    "exact order/size equality is demanded only when column savings and the penalised objective are separated by more than the margin 1e-6 (1+|saving|); otherwise the order-free consequences are asserted",
+    "exact order/size equality is demanded only when column savings and the penalised objective are separated by more than the rounding bound of the savings (16 B + 1e-9 relative); otherwise the order-free consequences are asserted",
 ]
 
 SAVINGS = [None, {"cls": "L2Saving"}, {"cls": "L2Cost", "param": 0.0},
@@ -57,9 +57,29 @@ def cases(draw, tier):
         for j in range(p):
             X[i][j] = X[i][j] * (1.0 + 0.13 * j)
     fams = ["combined", "dense", "sparse", "intermediate"]
+    cpen = draw(st.sampled_from(fams + ["callable"]))
+    if cpen == "callable":
+        # a lenient user penalty: anomalies are detected although no single column exceeds the sparse penalty
+        cpen = {"penalty": {"alpha": draw(st.sampled_from([0.5, 1.0, 2.0, 0.0])), "betas": [draw(st.sampled_from([0.0, 0.1, 0.5]))] * p}}
+        weak = draw(st.sampled_from([0.15, 0.3, 0.6]))
+        X = [[v * weak for v in row] for row in X]
+    craft = draw(st.integers(0, 5)) == 0
+    if craft:
+        # noise-free bump: one dominant column and one column whose saving is just above the sparse penalty
+        L = draw(st.integers(max(msl, 3), max(msl, min(n - 1, 12))))
+        a0 = draw(st.integers(0, n - L))
+        X = [[0.0] * p for _ in range(n)]
+        big = draw(st.sampled_from([30.0, 100.0, 300.0]))
+        eps_rel = draw(st.sampled_from([1e-3, 1e-2, 0.1, -1e-2]))
+        cscale = draw(st.sampled_from([1.0, 0.5, 2.0]))
+        beta = 2 * cscale * math.log(n_params(coll) * p)
+        for i in range(a0, a0 + L):
+            X[i][0] = big
+            X[i][1] = math.sqrt(max(beta * (1 + eps_rel), 0.0) / L) if coll is None or "Gaussian" not in str(coll) else X[i][1]
+        cpen = "dense"
     return {"params": {"collective_saving": coll, "point_saving": draw(st.sampled_from([None, {"cls": "L2Cost", "param": 0.0}])),
-                       "collective_penalty": draw(st.sampled_from(fams)),
-                       "collective_penalty_scale": draw(st.sampled_from([1.0, 0.5, 2.0, 0.1, 0.0, 0.25])),
+                       "collective_penalty": cpen,
+                       "collective_penalty_scale": cscale if craft else draw(st.sampled_from([1.0, 0.5, 2.0, 0.1, 0.0, 0.25])),
                        "point_penalty": draw(point_penalty_strategy(p)),
                        "point_penalty_scale": draw(st.sampled_from([1.0, 0.5, 2.0, 0.1])),
                        "min_segment_length": msl, "max_segment_length": draw(st.sampled_from([1000, msl + 5, msl]))},
@@ -106,7 +126,8 @@ def check(case):
         order = np.argsort(-sv, kind="stable")
         obj = np.cumsum(sv[order] - betas)
         kstar = int(np.argmax(obj)) + 1
-        tol = 1e-6 * (1 + float(np.abs(sv).max()))
+        # rounding of a saving computed from prefix sums (error model) - far below any genuine gain
+        tol = 16 * ref.error_bound(n, max(D.max_abs(case["X"]), 1e-300)) + 1e-9 * (1 + float(np.abs(sv).max()))
         if not got or len(set(got)) != len(got) or any(c < 0 or c >= p for c in got):
             raise Violation("affected columns are empty, repeated or out of range", anomaly=[a, b], icolumns=got)
         # order-free consequences
@@ -146,14 +167,14 @@ def check(case):
         classes.append("proper_subset")
     if margin_cases:
         classes.append("margin_satisfied")
-    classes.append(f"c_pen={params['collective_penalty']}")
+    classes.append("c_pen=" + (params["collective_penalty"] if isinstance(params["collective_penalty"], str) else "callable"))
     classes.append("p_pen=" + (params["point_penalty"] if isinstance(params["point_penalty"], str) else "callable"))
     return {"nontrivial": proper, "classes": classes}
 
 
 FACETS = [
     Facet(name="affected_columns", check=check, strategy=cases,
-          rule=("p in 2..6, n<=50, bumps and spikes on generated column subsets with distinct per-column magnitudes, all collective "
+          rule=("p in 2..6, n<=50, bumps and spikes on generated column subsets with distinct per-column magnitudes (also weak dense anomalies under a lenient user penalty callable, and crafted noise-free anomalies with one dominant and one marginal column), all collective "
                 "penalty families x scales, point penalty from all four families or a user callable with rank-dependent betas, savings L2Saving / Saving(L2Cost(0)) / Saving(GaussianVarCost); "
                 "DataFrame input with generated index and column labels; non-trivial = an anomaly whose subset is proper (1 <= k* < p)"),
           n_quick=640, n_thorough=10000, shards_quick=8, shards_thorough=16),
